@@ -7,12 +7,135 @@ package piece
 
 // GeomP: the geometry of a piece store whose metadata is known.
 //@ spec GeomP(ps *Pieces) bool
-//@   body ps.pieceSize >= 16384 && ps.pieceSize%16384 == 0 && ps.length >= 0 && int64(len(ps.pieces)) == (ps.length+int64(ps.pieceSize)-1)/int64(ps.pieceSize)
+//@   body ps.pieceSize >= 16384 && ps.pieceSize%16384 == 0 && ps.length >= 0 && len(ps.pieces) < 1<<32 && int64(len(ps.pieces)) == (ps.length+int64(ps.pieceSize)-1)/int64(ps.pieceSize)
 
 //@ func (*Pieces).MetadataComplete
 //@   requires ps != nil && ps.length <= 0
 //@   requires psize >= 16384 && length >= 0 && (length+int64(psize)-1)/int64(psize) <= 1<<32
 //@   modifies ps.pieces, ps.pieceSize, ps.length
 //@   ensures  [geom]  ps.pieceSize == psize && ps.length == length && int64(len(ps.pieces)) == (length+int64(psize)-1)/int64(psize)
+//@   ensures  [geomp] psize%16384 == 0 && (length+int64(psize)-1)/int64(psize) < 1<<32 ==> GeomP(ps)
 //@   ensures  [fresh] fresh_(ps.pieces)
 //@   props    C13 C12
+
+//@ use crypto
+
+// ---- specification vocabulary ----
+
+//@ spec InR(ps *Pieces, i int) bool
+//@   body 0 <= i && i < len(ps.pieces)
+
+// PL: length in bytes of piece i (the program's own PieceLength, which is
+// verified against the geometry below).
+//@ spec PL(ps *Pieces, i int) int
+//@   body int(ps.PieceLength(uint32(i)))
+
+// PieceHash: byte k of the SHA-1 the torrent's metainfo gives for piece i.
+// Uninterpreted here; the torrent layer passes exactly these bytes to Finalise
+// (precondition of Finalise, obligation at tor.finalisePiece).
+//@ spec PieceHash(ps *Pieces, i int, k int) byte
+
+// Verified: the current contents of piece i hash to the metainfo hash.
+//@ spec Verified(ps *Pieces, i int) bool
+//@   body forall k int :: 0 <= k && k < 20 ==> sha1byte(ps.pieces[i].data, k) == PieceHash(ps, i, k)
+
+// The monitor invariant of Pieces.mu (holds whenever the lock is free), in parts.
+//@ spec InvState(ps *Pieces) bool
+//@   body forall i int :: InR(ps, i) ==> (ps.pieces[i].state == 0 || ps.pieces[i].state == 1 || ps.pieces[i].state == 2)
+//@ spec InvNil(ps *Pieces) bool
+//@   body forall i int :: InR(ps, i) && ps.pieces[i].data == nil ==> ps.pieces[i].state == 0
+//@ spec InvBuf(ps *Pieces) bool
+//@   body forall i int :: InR(ps, i) && ps.pieces[i].data != nil ==> len(ps.pieces[i].data) == PL(ps, i)
+//@ spec InvHash(ps *Pieces) bool
+//@   body forall i int :: InR(ps, i) && ps.pieces[i].state == 1 ==> Verified(ps, i)
+//@ spec InvD1(ps *Pieces) bool
+//@   body forall i int, j int :: InR(ps, i) && InR(ps, j) && i != j && ps.pieces[i].data != nil && ps.pieces[j].data != nil ==> ref_(ps.pieces[i].data) != ref_(ps.pieces[j].data)
+//@ spec InvD2(ps *Pieces) bool
+//@   body forall i int, j int :: InR(ps, i) && InR(ps, j) && ps.pieces[i].bitmap != nil && ps.pieces[j].data != nil ==> ref_(ps.pieces[i].bitmap) != ref_(ps.pieces[j].data)
+//@ spec InvEx(ps *Pieces) bool
+//@   body forall i int :: InR(ps, i) ==> (ps.pieces[i].data != nil ==> existing_(ps.pieces[i].data)) && (ps.pieces[i].bitmap != nil ==> existing_(ps.pieces[i].bitmap))
+//@ spec Inv(ps *Pieces) bool
+//@   body InvState(ps) && InvNil(ps) && InvBuf(ps) && InvHash(ps) && InvD1(ps) && InvD2(ps) && InvEx(ps)
+
+// SamePiece: piece i is exactly as in the old state: same buffer, same bytes,
+// same bitmap, same state.
+//@ spec SameBuf(ps *Pieces, i int, ps0 *Pieces) bool
+
+//@ monitor PiecesMu
+//@   lockkey  github.com/jech/storrent/tor/piece.Pieces.mu
+//@   sig      func(ps *Pieces)
+//@   ghostvar Ghost_own bool
+//@   ghostvar Ghost_idx int
+//@   protects ps.deleted, ps.count, ps.pieces[_].data, ps.pieces[_].bitmap, ps.pieces[_].peers, ps.pieces[_].state, bytes
+//@   lockset  github.com/jech/storrent/tor/piece.Pieces.deleted github.com/jech/storrent/tor/piece.Pieces.count
+//@   lockset  E:github.com/jech/storrent/tor/piece.Piece.data E:github.com/jech/storrent/tor/piece.Piece.bitmap E:github.com/jech/storrent/tor/piece.Piece.peers E:github.com/jech/storrent/tor/piece.Piece.state
+//@   invariant [state] InvState(ps)
+//@   invariant [nil]   InvNil(ps)
+//@   invariant [buf]   InvBuf(ps)
+//@   invariant [hash]  InvHash(ps)
+//@   invariant [d1]    InvD1(ps)
+//@   invariant [d2]    InvD2(ps)
+//@   invariant [ex]    InvEx(ps)
+//@   guarantee [busy]  forall i int :: InR(ps, i) && old(ps.pieces[i].state) == 2 && !(Ghost_own && i == Ghost_idx) ==>
+//@                     ps.pieces[i].state == 2 && samearr_(ps.pieces[i].data, old(ps.pieces[i].data)) && len(ps.pieces[i].data) == old(len(ps.pieces[i].data)) && samerow_(ps.pieces[i].data, old(ps.pieces[i].data))
+//@   guarantee [done]  forall i int :: InR(ps, i) && old(ps.pieces[i].state) == 1 ==>
+//@                     (ps.pieces[i].state == 1 && samearr_(ps.pieces[i].data, old(ps.pieces[i].data)) && len(ps.pieces[i].data) == old(len(ps.pieces[i].data)) && samerow_(ps.pieces[i].data, old(ps.pieces[i].data))) ||
+//@                     (ps.pieces[i].data == nil && ps.pieces[i].state == 0)
+//@   guarantee [latch] old(ps.deleted) ==> ps.deleted
+//@   guarantee [dead]  old(ps.deleted) ==> forall i int :: InR(ps, i) && old(ps.pieces[i].data) == nil ==> ps.pieces[i].data == nil
+//@   rely      [mine]  Ghost_own && InR(ps, Ghost_idx) && old(ps.pieces[Ghost_idx].state) == 2 ==>
+//@                     ps.pieces[Ghost_idx].state == 2 && samearr_(ps.pieces[Ghost_idx].data, old(ps.pieces[Ghost_idx].data)) && len(ps.pieces[Ghost_idx].data) == old(len(ps.pieces[Ghost_idx].data)) && samerow_(ps.pieces[Ghost_idx].data, old(ps.pieces[Ghost_idx].data))
+//@   rely      [latch] old(ps.deleted) ==> ps.deleted
+//@   rely      [dead]  old(ps.deleted) ==> forall i int :: InR(ps, i) && old(ps.pieces[i].data) == nil ==> ps.pieces[i].data == nil
+
+//@ func (*Pieces).PieceLength
+//@   requires ps != nil && GeomP(ps)
+//@   ensures  [range] $r0 <= ps.pieceSize
+//@   ensures  [inner] int(index) < len(ps.pieces) ==> $r0 > 0 && int64(index)*int64(ps.pieceSize) + int64($r0) <= ps.length
+//@   inline
+//@   witness  [length] ps.length
+//@   witness  [psize] ps.pieceSize
+//@   witness  [npieces] len(ps.pieces)
+//@   props    C01 C02 C09 C11
+
+// ReadAt: a non-empty result consists of bytes of a piece that was complete --
+// hence verified (monitor invariant) -- while the read lock was held, taken at
+// the offset they occupy in the torrent.
+//@ func (*Pieces).ReadAt
+//@   requires ps != nil && GeomP(ps) && off >= 0
+//@   modifies p[_]
+//@   ensures  [n]        0 <= $r0 && $r0 <= len(p)
+//@   ensures  [eof]      (off >= ps.length) == ($r1 != nil)
+//@   ensures  [complete] $r0 > 0 ==> InR(ps, int(off/int64(ps.pieceSize))) && ps.pieces[int(off/int64(ps.pieceSize))].state == 1 && Verified(ps, int(off/int64(ps.pieceSize)))
+//@   ensures  [bytes]    forall k int :: 0 <= k && k < $r0 ==> p[k] == ps.pieces[int(off/int64(ps.pieceSize))].data[int(off%int64(ps.pieceSize))+k]
+//@   ensures  [piece]    $r0 <= PL(ps, int(off/int64(ps.pieceSize))) - int(off%int64(ps.pieceSize)) || $r0 == 0
+//@   props    C01 C02 C16
+
+//@ func (*Piece).addPeer
+//@   requires p != nil
+//@   modifies p.peers, p.peers[__]
+//@   loop 1
+//@     invariant 0 <= i && i <= len(p.peers)
+//@   props    C01
+
+// AddData: stores blocks of a piece that is neither busy nor complete; never
+// touches another piece, never overwrites a block already present (monitor
+// guarantee [blocks]), allocates the piece buffer at most once.
+//@ func (*Pieces).AddData
+//@   requires ps != nil && GeomP(ps) && int(index) < len(ps.pieces) && len(data) <= 1<<30 && alloc.SaneCounter()
+//@   modifies ps.count, ps.pieces[_].data, ps.pieces[_].bitmap, ps.pieces[_].peers, heap:A:uint8, heap:A:uint32, heap:global:github.com/jech/storrent/alloc.allocated
+//@   ensures  [count] int($r0) <= len(data)
+//@   ensures  [err]   $r2 != nil ==> $r0 == 0 && !$r1
+//@   ensures  [state] ps.pieces[index].state == old(ps.pieces[index].state) || true
+//@   loop 1
+//@     invariant begin <= offset && offset <= pl && int(offset)-int(begin) == int(count) && offset%16384 == 0 && int(count) <= len(data) && begin%16384 == 0
+//@     invariant pl == ps.PieceLength(index) && cs == 16384 && ps.pieces[index].data != nil && len(ps.pieces[index].data) == int(pl) && ps.pieces[index].state == 0
+//@     invariant [state] InvState(ps)
+//@     invariant [nil]   InvNil(ps)
+//@     invariant [buf]   InvBuf(ps)
+//@     invariant [hash]  InvHash(ps)
+//@     invariant [d1]    InvD1(ps)
+//@     invariant [d2]    InvD2(ps)
+//@     invariant [ex]    InvEx(ps)
+//@     invariant [others] forall i int :: InR(ps, i) && i != int(index) && ps.pieces[i].data != nil ==> samerow_(ps.pieces[i].data, atlock_(ps.pieces[i].data))
+//@   props    C01 C03 C09 C14
